@@ -372,7 +372,7 @@ def post_of(ob: dict, pre: dict, depth: int, layout: str, naming: str, clients: 
     cid, codes, force = ob["h"][-1][:3]
     env = ob.get("env", "gen")
     declared = dict(pre["declared"])
-    if ob["applied"]:
+    if ob["applied"] or (env.startswith("int-") and not ob.get("env_applied") and ob["gen"]["ok"]):
         declared[cid] = sorted(codes)
     elif (env == "gen" and not ob["gen"]["ok"] and (force or not ob["existed"])) or (env.startswith("int-") and ob.get("env_applied")):
         declared[cid] = []  # a direct generation that failed / was killed: the package directory was re-created empty
@@ -478,7 +478,10 @@ def replay_and_judge(chk: Check, fams: list[tuple[dict, list[dict]]], spawn_ever
                 # an environment step: observed (it is the `pre` of the next generator step), compared, never judged
                 chk.cov.setdefault("env_steps", {}).setdefault(ob["env"], 0)
                 chk.cov["env_steps"][ob["env"]] += 1
-                chk.require(ob.get("env_applied", False), f"environment step {ob['env']} could not be applied after {json.dumps(n['hist'][:-1])} ({ob['gen']})")
+                if not ob.get("env_applied", False):
+                    # e.g. a run that never reaches the kill point simply completes: the model disagrees (DRIFT below), the
+                    # observation still is the `pre` of the next generator step
+                    chk.cov["env_steps_not_applicable"] = chk.cov.get("env_steps_not_applicable", 0) + 1
                 continue
             if ob["existed"] and not n["hist"][-1][2]:
                 key = "nonforce_over_existing_returned" if ob["gen"]["ok"] else "nonforce_over_existing_raised"
